@@ -419,11 +419,11 @@ def run(ctx):
             label="MC_Wsdl exchange, 1 operation", timeout=1500)
     ctx.exhaustive = True
     res = ctx.tlc("MC_Wsdl", "run.cfg", workers=1, extra_files={"run.cfg": "SPECIFICATION Spec\nCONSTANTS\n  MaxOps = 1\nCONSTRAINT Emit\nCHECK_DEADLOCK FALSE\n"},
-                  label="Gen_Wsdl 1 operation", tags=("WSDL",), timeout=1500)
+                  label="Gen_Wsdl 1 operation", tags=("WSDL",), require_cases=True, timeout=1500)
     cases = [c for _t, c in res.printed]
     res = ctx.tlc("MC_Wsdl", "run.cfg", workers=1, simulate=f"num={ctx.pick(60, 1500)}", depth=8,
                   extra_files={"run.cfg": "SPECIFICATION Spec\nCONSTANTS\n  MaxOps = 4\nCONSTRAINT Emit\nCHECK_DEADLOCK FALSE\n"},
-                  label="Gen_Wsdl up to 4 operations (simulate)", tags=("WSDL",), timeout=3000)
+                  label="Gen_Wsdl up to 4 operations (simulate)", tags=("WSDL",), require_cases=True, timeout=3000)
     cases += [c for _t, c in res.printed]
     seen = set()
     for c in cases:
